@@ -184,7 +184,14 @@ func Harness_C17_RouterStopsReading() {
 	// the router stops reading
 	close(rt.stop)
 	<-rt.stopped
-	rt.send(&wamp.Invocation{Request: 1, Registration: regID, Details: wamp.Dict{}})
+	switch vChoice("invocation", 3) {
+	case 0:
+		rt.send(&wamp.Invocation{Request: 1, Registration: regID, Details: wamp.Dict{}})
+	case 1: // answered by the receive loop itself: no such registration
+		rt.send(&wamp.Invocation{Request: 1, Registration: regID + 1000, Details: wamp.Dict{}})
+	case 2: // answered by the receive loop itself: invalid passthru scheme
+		rt.send(&wamp.Invocation{Request: 1, Registration: regID, Details: wamp.Dict{"ppt_scheme": "bogus"}})
+	}
 	vQuiesce()
 	switch vChoice("ending", 4) {
 	case 0: // the transport is lost
@@ -218,4 +225,74 @@ func Harness_C17_RouterStopsReading() {
 	}
 	vAssert("no-goroutine-or-handler-left", vGoroutinesSinceMark() <= 0)
 	vCover("router-stopped-reading-checked")
+}
+
+// Stall exploration on the client: an API call whose goroutine is descheduled
+// after its k-th synchronisation operation while the router goes away; when it
+// continues, the call returns (with an error where appropriate) instead of
+// waiting for ever.
+func Harness_C17_APICallDuringDisconnect() {
+	cl, rt := vNewClient(300 * time.Millisecond)
+	api := vChoice("api", 5)
+	k := vChoice("stall-after", 6)
+	ending := vChoice("ending", 3)
+	done := make(chan struct{})
+	go func() {
+		defer close(done)
+		vStallAfter(k)
+		switch api {
+		case 0:
+			_ = cl.Subscribe("t", func(*wamp.Event) {}, nil)
+		case 1:
+			_ = cl.Register("p", func(context.Context, *wamp.Invocation) InvokeResult { return InvokeResult{} }, nil)
+		case 2:
+			_ = cl.Publish("t", wamp.Dict{"acknowledge": true}, nil, nil)
+		case 3:
+			ctx, cancel := context.WithTimeout(context.Background(), time.Second)
+			_, _ = cl.Call(ctx, "q", nil, nil, nil, nil)
+			cancel()
+		case 4:
+			_ = cl.Publish("t", nil, nil, nil) // not acknowledged
+		}
+		vStallAfter(-1)
+	}()
+	vQuiesce()
+	// the router goes away
+	switch ending {
+	case 0:
+		close(rt.stop)
+		<-rt.stopped
+		rt.peer.Close() // transport lost, nobody reads any more
+	case 1:
+		rt.send(&wamp.Goodbye{Reason: wamp.CloseSystemShutdown, Details: wamp.Dict{}})
+		close(rt.stop)
+		<-rt.stopped
+	case 2:
+		rt.send(&wamp.Abort{Reason: wamp.ErrSystemShutdown, Details: wamp.Dict{}})
+		close(rt.stop)
+		<-rt.stopped
+	}
+	vQuiesce()
+	vStallRelease()
+	vQuiesce()
+	// the API call must come back within the client's own timeouts
+	vAdvance(int64(3 * time.Second))
+	vQuiesce()
+	select {
+	case <-done:
+	default:
+		vAssert("api-call-returns-after-the-router-is-gone", false)
+		return
+	}
+	closed := make(chan struct{})
+	go func() { cl.Close(); close(closed) }()
+	vQuiesce()
+	vAdvance(int64(2 * time.Second))
+	vQuiesce()
+	select {
+	case <-closed:
+	default:
+		vAssert("close-returns", false)
+	}
+	vCover("api-during-disconnect-done")
 }
